@@ -44,6 +44,8 @@ PROGS = {
     "tg_raw": (["body"], 5, 8),
     "tg_nested": (["body"], 3, 4),
     "tg_cancel": (["body"], 5, 8),
+    "tg_inner": (["body"], 5, 10),
+    "pfor_inner": (["body"], 5, 10),
     "flow": (["body", "item"], 5, 8),
     "arena_direct": (["body"], 3, 3),
     "arena_nested": (["body"], 4, 6),
